@@ -95,9 +95,22 @@ def dependency_of(spec, d):
     return Dependency(fam, params=par)
 
 
-def run_mixed(case, seed_override=None, dep_obj=None):
+def roundtrip(obj, how):
+    import copy, pickle
+    if how == "copy":
+        return copy.copy(obj)
+    if how == "deepcopy":
+        return copy.deepcopy(obj)
+    if how == "pickle":
+        return pickle.loads(pickle.dumps(obj))
+    return obj
+
+
+def run_mixed(case, seed_override=None, dep_obj=None, inputs_via=None):
     mixed_up, Staircase, convert_pbox, Params = _mods()
     vars_ = [build_input(s) for s in case["inputs"]]
+    if inputs_via:
+        vars_ = [roundtrip(v, inputs_via) for v in vars_]
     f = X.Func(case["e"], len(vars_))
     fcall = X.make_callable(f, case.get("fstyle", "object"))
     via = case.get("via")
@@ -280,15 +293,63 @@ def gen_cases(ctx):
                   [("P", "uniform", (0.0, 1.0), (2.0, 3.0)), ("P", "normal1", (0.0, 0.5), (1.0,))]]
     for j, dsp in enumerate(dep_specs):
         for via in ("MixedPropagation", "Propagation", None):
-            if via is None and dsp is not None and len(dsp) > 2 and dsp[2] == "string":
-                continue
+            if via is None and (dsp is None or len(dsp) < 3 or dsp[2] not in ("kw", "matrix")):
+                continue        # the plain function is exercised by the random streams; here only the keyword-built objects
             add("api-layer", api_inputs[j % 3], lin2 if j % 2 else ("sub", ("mul", ("c", 2), ("v", 0)), ("v", 1)),
                 (("direct", None, None), ("endpoints", None, None), ("subinterval", "endpoints", 2))[j % 3], "imc",
-                n_sam=(8, 15, 30)[j % 3], seed=100 + j, dep=dsp, via=via, fstyle=("object", "closure", "lambda")[j % 3])
+                n_sam=(6, 10, 16)[j % 3], seed=100 + j, dep=dsp, via=via, fstyle=("object", "closure", "lambda")[j % 3])
     add("api-layer", [("P", "normal", (0.0, 1.0), (1.0, 1.0)), ("D", "gaussian", (1.0, 0.5)), ("I", 0.5, 1.5)], three, ("endpoints", None, None), "imc",
         n_sam=12, seed=77, dep=("gaussian", 0.5, "matrix"), via="MixedPropagation")
     add("api-layer", [("P", "normal", (0.0, 1.0), (1.0, 1.0)), ("D", "gaussian", (1.0, 0.5)), ("I", 0.5, 1.5)], three, ("direct", None, None), "imc",
         n_sam=12, seed=78, dep=("gaussian", 0.5, "matrix"), via="Propagation")
+    # extreme levels: interval Monte Carlo draws below the first and above the last grid level (find_nearest outside the grid);
+    # the seeds are searched here with statsmodels, so that the stream always contains such draws
+    def find_seed(dsp, d, n, col, low):
+        dep0 = dependency_of(dsp if dsp is not None else ("independence", None), d)
+        for sd in range(0, 4000):
+            u = np.atleast_2d(dep0.copula.rvs(n, random_state=sd))
+            if (low and u[:, col].min() < 0.001) or (not low and u[:, col].max() > 0.999):
+                return sd
+        return None
+    xl_inputs = [("P", "normal", (0.0, 1.0), (1.0, 1.5)), ("D", "gaussian", (1.0, 0.5))]
+    for j, (dsp, n_sam, col, low) in enumerate([(None, 15, 0, True), (None, 15, 1, False), (("gaussian", 0.6, "kw"), 25, 0, True),
+                                                (("clayton", 2.0, "pos"), 25, 1, True), (("frank", 5.0, "kw"), 40, 0, False),
+                                                (("independence", None), 60, 1, True)]):
+        sd = find_seed(dsp, 2, n_sam, col, low)
+        if sd is not None:
+            add("extreme-levels", xl_inputs, lin2 if j % 2 else ("sub", ("mul", ("c", 2), ("v", 0)), ("v", 1)),
+                (("direct", None, None), ("endpoints", None, None), ("subinterval", "direct", 2))[j % 3], "imc", n_sam=n_sam, seed=sd, dep=dsp,
+                via=(None, "MixedPropagation", "Propagation")[j % 3])
+    sd = find_seed(None, 1, 30, 0, True)
+    if sd is not None:
+        add("extreme-levels", [("P", "uniform", (0.0, 1.0), (2.0, 3.0))], one, ("endpoints", None, None), "imc", n_sam=30, seed=sd, dep=None)
+    # small problems exhaustively: d in 1..3 inputs x n_sub in 0..3 x both styles, both methods (single-input tilings included)
+    small_inputs = [("P", "normal", (1.0, 2.0), (0.5, 1.0)), ("I", 1.0, 5.0), ("D", "uniform", (1.0, 2.0))]
+    small_fns = {1: ("add", ("mul", ("c", 3), ("v", 0)), ("c", 1)), 2: lin2, 3: three}
+    for d in (1, 2, 3):
+        for n in (0, 1, 2, 3):
+            for st in ("direct", "endpoints"):
+                for rot in (range(3) if (d == 1 and n >= 1) else ((n + d) % 3,)):     # a single input: every kind of input
+                    inputs = [small_inputs[(rot + j) % 3] for j in range(d)]
+                    if (n + rot + (st == "direct")) % 2 == 0:
+                        add("small", inputs, small_fns[d], ("subinterval", st, n), "slicing", k=2 if d == 3 else 3)
+                    else:
+                        add("small", inputs, small_fns[d], ("subinterval", st, n), "imc", n_sam=4, seed=n + rot, dep=None)
+    for inp in small_inputs:                    # one input, the two plain strategies
+        add("small", [inp], small_fns[1], ("direct", None, None), "slicing", k=4)
+        add("small", [inp], small_fns[1], ("endpoints", None, None), "imc", n_sam=5, seed=0, dep=None)
+    # slice counts at the equalities with the 200-level grid (levels on the grid points, between them, one more, two fewer)
+    for k in (198, 199, 200, 201):
+        add("grid-sizes", [("P", "normal", (0.0, 1.0), (1.0, 1.5))], one, ("direct", None, None) if k % 2 else ("endpoints", None, None), "slicing", k=k)
+    # magnitudes: power-of-two and decimal scalings of intervals and precise distributions, degree-one response
+    lin = ("sub", ("mul", ("c", 2), ("v", 0)), ("v", 1))
+    for sc in (2.0 ** -70, 2.0 ** -30, 2.0 ** 36, 1e-19, 1e-170, 1e150):
+        add("scaled", [("I", 1.0 * sc, 3.0 * sc), ("D", "uniform", (2.0 * sc, 5.0 * sc))], lin, ("endpoints", None, None), "slicing", k=3, mag_floor=0.0)
+        add("scaled", [("D", "uniform", (-1.0 * sc, 1.0 * sc)), ("I", -2.0 * sc, 1.0 * sc)], lin, ("subinterval", "direct", 2), "imc", n_sam=6, seed=3, dep=None, mag_floor=0.0)
+    # falsy but valid arguments: seed 0, a zero correlation, the interval [0,0], n_sub = 0
+    add("falsy", [("P", "normal", (0.0, 1.0), (1.0, 1.0)), ("I", 0.0, 0.0)], lin2, ("endpoints", None, None), "imc", n_sam=9, seed=0, dep=("gaussian", 0.0, "pos"))
+    add("falsy", [("I", 0.0, 0.0), ("D", "gaussian", (0.0, 1.0))], lin, ("subinterval", "endpoints", 0), "imc", n_sam=9, seed=0, dep=("gaussian", 0.0, "kw"), via="MixedPropagation")
+    add("falsy", [("I", 0.0, 0.0), ("P", "uniform", (0.0, 0.0), (1.0, 2.0))], lin, ("direct", None, None), "slicing", k=3)
     # sequences: different response functions with one __qualname__ on the same inputs, one after the other
     seq_inputs = [("P", "normal", (0.0, 1.0), (1.0, 1.0)), ("I", 1.0, 2.0)]
     for fstyle in ("closure", "lambda"):
@@ -331,7 +392,7 @@ def gen_cases(ctx):
                 add("slicing-" + kp, inputs, e, cf, "slicing", k=choose_k(d, cf), fstyle=fstyle, via=via)
             else:
                 per = 1 if cf[0] != "subinterval" else max(cf[2], 1) ** d
-                n_sam = rng.choice([1, 2, 5, 17, 40, 100])
+                n_sam = rng.choice([1, 2, 5, 17, 40, 70])
                 n_sam = max(1, min(n_sam, cap_cuts // per))
                 fam = rng.choice([None, "independence", "gaussian", "frank", "clayton"])
                 if fam in ("frank", "clayton") and d != 2:
@@ -389,7 +450,10 @@ def run(ctx: core.Check, cases=None):
                 "through the function, MixedPropagation and Propagation x Dependency built positionally / params= / corr= / theta= / "
                 "t(corr, df) / correlation matrix / independence object / the string / None; the levels must equal u_sample of THAT "
                 "object, of an identically built one, and statsmodels' rvs), the random streams rotate the API layer and the "
-                "construction style, sequence (functions sharing a "
+                "construction style, extreme-levels (seeds searched so that a draw falls below the first / above the last grid level), small "
+                "(1..3 inputs x n_sub 0..3 x both styles, single-input tilings), grid-sizes (k = 198..201), scaled (2^-70 .. 2^36, "
+                "1e-170 .. 1e150), falsy (seed 0, correlation 0.0, the interval [0,0], n_sub 0); Dependency objects and inputs are also "
+                "passed through copy / deepcopy / pickle before use; sequence (functions sharing a "
                 "__qualname__). Every focal interval is also compared with exact corner / tile-corner evaluation done without b2b; every "
                 "returned p-box and input object is re-read after all calls.")
     ctx.assumptions = [
@@ -542,7 +606,7 @@ def independent_focal(c, box):
 
 def tol_of(c):
     sup = [(l[0], r[-1]) for l, r in c["_arrays"]]
-    fake = dict(e=c["e"], box=sup, exact=False)
+    fake = dict(e=c["e"], box=sup, exact=False, mag_floor=c.get("mag_floor", 1.0))
     return X.tolerance(fake)
 
 
@@ -675,6 +739,18 @@ def oracle(ctx, c, o, pv, tol):
         if len(grid) != k or len(rows) != k ** d or set(cnt) != set(itertools.product(grid, repeat=d)) or any(v != 1 for v in cnt.values()):
             ctx.fail(feat(c, "grid-incomplete"), cj(c, n_rows=len(rows), n_levels=len(grid)),
                      f"slicing with k={k}, d={d}: {len(rows)} level tuples over {len(grid)} levels, not every combination exactly once")
+        if c["stream"] in ("representation", "thin", "three-inputs", "small", "scaled") and (k + d) % 2 == 0:
+            how = ("copy", "deepcopy", "pickle")[(k + d) % 3]
+            try:
+                o5 = run_mixed(c, inputs_via=how)
+            except BaseException as ex:  # noqa
+                o5 = {"res": ("err", err_kind(ex))}
+            ctx.evaluations += 1
+            r5 = o5["res"]
+            if r5[0] != "ok" or not (np.array_equal(r5[1], left) and np.array_equal(r5[2], right)):
+                ft = feat(c, "changed-by-" + how)
+                ft["copied"] = "inputs"
+                ctx.fail(ft, cj(c, copied="inputs", how=how), f"slicing with the input objects passed through {how} gives a different p-box")
         ref = np.linspace(0.001, 0.999, k)
         if len(grid) == k and any(abs(a - b) > 1e-12 for a, b in zip(grid, ref)):
             ctx.fail(feat(c, "grid-levels"), cj(c, grid=grid[:5]), "slicing levels are not equally spaced between the probability boundaries")
@@ -702,7 +778,9 @@ def oracle(ctx, c, o, pv, tol):
                              f"the probability levels used are not the sample of the given dependency structure for the given seed ({name})")
                     break
         # reproducibility: same seed and dependency -> identical p-box and levels
-        o2 = run_mixed(c)
+        kwb = c["dep"] is not None and (c["dep"][0] == "t" or (len(c["dep"]) > 2 and c["dep"][2] in ("kw", "matrix")))
+        full = c["stream"] in ("extreme-levels", "witness", "entry-point", "falsy") or (c["stream"] == "api-layer" and kwb and c.get("via"))
+        o2 = run_mixed(c) if (full or c["seed"] % 2 == 0 or o.get("dep_obj") is None or isinstance(o.get("dep_obj"), str)) else o      # the other half repeats on the SAME Dependency object below
         ctx.evaluations += 1
         r2 = o2["res"]
         if r2[0] != "ok" or not (np.array_equal(r2[1], left) and np.array_equal(r2[2], right)) or \
@@ -711,7 +789,7 @@ def oracle(ctx, c, o, pv, tol):
             if _confirm_not_reproducible(ctx, c, False):
                 ctx.fail(feat(c, "not-reproducible"), cj(c, diag=diag), "interval Monte Carlo with the same seed and dependency gives a different p-box")
         # ... also when the very same Dependency object is used again (a second draw must restart the stream)
-        if o.get("dep_obj") is not None:
+        if o.get("dep_obj") is not None and (full or c["seed"] % 2 == 1):
             o4 = run_mixed(c, dep_obj=o["dep_obj"])
             ctx.evaluations += 1
             r4 = o4["res"]
@@ -720,6 +798,29 @@ def oracle(ctx, c, o, pv, tol):
               if _confirm_not_reproducible(ctx, c, True):
                 ctx.fail(feat(c, "not-reproducible-same-object"), cj(c, diag=_repro_diag(o, o4, left, right, lv)),
                          "a second interval Monte Carlo run with the same seed on the SAME Dependency object gives a different p-box")
+        # ... and when the Dependency object (or the inputs) went through copy.copy / copy.deepcopy / pickle before use
+        hows = ("copy", "deepcopy", "pickle")
+        todo = []
+        if o.get("dep_obj") is not None and not isinstance(o["dep_obj"], str):
+            kwbuilt = c["dep"] is not None and (c["dep"][0] == "t" or (len(c["dep"]) > 2 and c["dep"][2] in ("kw", "matrix")))
+            todo += [("dep", h) for h in (hows if (kwbuilt and c["stream"] == "api-layer" and c.get("via") == "MixedPropagation") else (hows[c["seed"] % 3],))]
+        if c["stream"] in ("representation", "falsy") or c["seed"] % 4 == 0:
+            todo.append(("inputs", hows[(c["seed"] + 1) % 3]))
+        for what, how in todo:
+            try:
+                o5 = run_mixed(c, dep_obj=roundtrip(o["dep_obj"], how)) if what == "dep" else run_mixed(c, inputs_via=how)
+            except BaseException as ex:  # noqa  (an object that cannot be copied / pickled at all)
+                o5 = {"res": ("err", err_kind(ex)), "levels": None}
+            ctx.evaluations += 1
+            r5 = o5["res"]
+            if r5[0] != "ok" or not (np.array_equal(r5[1], left) and np.array_equal(r5[2], right)) or \
+                    not (o5["levels"] is not None and lv is not None and np.array_equal(o5["levels"], lv)):
+                ft = feat(c, "changed-by-" + how)
+                ft["copied"] = what
+                ctx.fail(ft, cj(c, copied=what, how=how, result=r5[0] if r5[0] != "ok" else "value",
+                                levels_head=None if o5["levels"] is None else o5["levels"][:2].tolist(), expected_levels_head=None if lv is None else lv[:2].tolist()),
+                         f"interval Monte Carlo with the {'Dependency object' if what == 'dep' else 'input objects'} passed through {how} "
+                         f"gives {'an error ' + str(r5[1]) if r5[0] != 'ok' else 'different probability levels / a different p-box'} (same seed)")
         if c["n_sam"] >= 5 and (c["seed"] % 2 == 0 or c["n_sam"] <= 15):
             o3 = run_mixed(c, seed_override=c["seed"] + 1)
             if o3["levels"] is not None and lv is not None and np.array_equal(o3["levels"], lv):
